@@ -1082,12 +1082,7 @@ pub fn replay(scenario: &Value, verbose: bool) -> Result<Option<Violation>, Stri
 pub fn death_violation(seed: u64, run: u64, why: &str) -> Value {
     let sc = scen_for(seed, run);
     // the last "C <run> <step> <op>" marker on the worker's stderr names the call in flight
-    let marker = why
-        .lines()
-        .filter(|l| l.trim_start().starts_with("C "))
-        .last()
-        .map(|l| l.trim().to_string())
-        .unwrap_or_default();
+    let marker = crate::supervisor::marker_line(why, "C ").unwrap_or_default();
     let opname = marker.split_whitespace().nth(3).unwrap_or("table-call").to_string();
     let v = viol(
         "crash",
